@@ -120,7 +120,10 @@ type world struct {
 }
 
 // newWorld creates a host and DHT (client of a scripted network). Rank n is the local node itself.
-func newWorld(n int, key string, opts ...Option) *world {
+func newWorld(n int, key string, opts ...Option) *world { return newWorldIDs(n, key, nil, opts...) }
+
+// newWorldIDs: like newWorld, but pool members 0..len(special)-1 get the given (real) peer ids.
+func newWorldIDs(n int, key string, special []peer.ID, opts ...Option) *world {
 	w := &world{key: key, n: n, rank: map[peer.ID]int{}, dialFail: map[peer.ID]bool{}}
 	kk := ks.XORKeySpace.Key([]byte(key))
 	type pd struct {
@@ -130,6 +133,9 @@ func newWorld(n int, key string, opts ...Option) *world {
 	var ps []pd
 	for i := 0; i < n; i++ {
 		p := vPeer(i)
+		if i < len(special) {
+			p = special[i]
+		}
 		ps = append(ps, pd{p, ks.XORKeySpace.Key([]byte(p)).Distance(kk).FillBytes(make([]byte, 32))})
 	}
 	sort.Slice(ps, func(i, j int) bool { return string(ps[i].d) < string(ps[j].d) })
@@ -147,7 +153,7 @@ func newWorld(n int, key string, opts ...Option) *world {
 		}
 		return nil
 	}
-	all := append([]Option{ProtocolPrefix("/verif"), DisableAutoRefresh(), Validator(vNSValidator()), Datastore(vDatastore()),
+	all := append([]Option{ProtocolPrefix("/verif"), DisableAutoRefresh(), Validator(vNSValidatorPK()), Datastore(vDatastore()),
 		Mode(ModeClient),
 		WithCustomMessageSender(func(h host.Host, protos []protocol.ID) pb.MessageSenderWithDisconnect { return w.sender })}, opts...)
 	d, err := New(w.h, all...)
